@@ -5,7 +5,7 @@ import shutil
 from .. import prop as P
 from ..prop import V, hx, unhx
 
-KEYS = [b"k0", b"k1", b"k2", b"\x00", b"key-long-" * 3, b"z"]
+KEYS = [b"k0", b"k1", b"k2", b"\x00", b"key-long-" * 3, b"z", b"\xff\xfe\x00mid", b"", b"k" * 300]
 BAD = ["str", "int", "none", "list", "float", "mv"]
 
 
@@ -65,7 +65,8 @@ class C20(P.Property):
             op = rng.choice(enabled)
             st = {"op": op}
             if op == "set":
-                st.update(k=rng.randrange(len(KEYS)), v=hx(rng.randbytes(rng.randint(0, 6))), ba=rng.random() < 0.25)
+                st.update(k=rng.randrange(len(KEYS)), v=hx(rng.randbytes(rng.randint(0, 6) if rng.random() < 0.97 else rng.choice([255, 4096, 70000]))),
+                          ba=rng.random() < 0.25)
             elif op == "setbad":
                 st.update(k=rng.randrange(len(KEYS)), bad=rng.choice(BAD))
             elif op in ("getitem", "get", "del", "in"):
